@@ -98,6 +98,27 @@ R7 = {
 }
 for k, v in R7.items():
     EXTRA[k] = EXTRA.get(k, "") + v
+R8 = {
+ "C01": " Coarse grids (ticks so large that the price range holds about as many grid prices as levels are published) in 3% of the random histories.",
+ "C02": " Coarse grids in 3% of the random histories and in the all-level-counts pass (a panicking getter is reported as a violation).",
+ "C03": " Coarse grids; books of one market advanced on their own clocks.",
+ "C04": " Coarse grids.",
+ "C05": " Coarse grids; the end time of an order cancelled in a step is compared with start + the position of the cancelling instruction in the reproducing schedule.",
+ "C06": " Coarse grids.",
+ "C07": " Coarse grids; single books of a market advanced on their own through get_order_book_mut(i).set_time, so that reloads must keep every book's own clock.",
+ "C08": " Coarse grids in 2% of the sessions; end time of cancelled orders against the schedule position.",
+ "C10": " A family of over-full sessions (more instructions than the step has time units); coarse grids.",
+ "C11": " Coarse grids in 2% of the sessions.",
+ "C12": " Coarse grids; books of one market on different clocks (a rejected creation must not move any of them).",
+ "C13": " Over-full sessions with toggles; books of one market on different clocks around market-wide toggles.",
+ "C14": " Books of one market advanced on their own clocks; coarse grids; end time of cancelled orders against the schedule position.",
+ "C16": " One configuration in fifty with an empty population (must stay silent).",
+ "C18": " Cancels / modifies of the id the next order will get, submitted before that order in the same step; step sizes just above 2^53 / 2^54 / 2^56.",
+ "C19": " An ask resting at exactly 2^32-1 in half of the top-of-range scripts whose tick divides 2^32-1; coarse grids in 8% of the scripts.",
+ "C20": " The sets are driven by a generator whose fallible byte draw fails on every third request when the seed is odd; two probe types log what try_fill_bytes returned.",
+}
+for k, v in R8.items():
+    EXTRA[k] = EXTRA.get(k, "") + v
 for k, v in EXTRA.items():
     c, tech, text, note = T[k]
     T[k] = (c, tech, text + v, note)
@@ -119,7 +140,7 @@ m = {
            "baseline_off_cmd": "cd /repo && cargo test --workspace --no-fail-fast --offline", "source_commits": hook_commits, "add_only": True},
  "engines": [{"name": "bvmon", "path": "/verif/harness", "serves_properties": sorted(T), "kind_free_text": "Rust harness: generators, reference engine, runtime monitors over real executions, one sub-command per property; Python executor pyharness/run_scripts.py for C18/C19"}],
  "checks": checks,
- "notes": "Runtime monitoring only: every check executes the real code and an oracle observes the executions. Exit 0 held on everything explored, 1 violation (VIOLATION property=<id> replay=<path>), 2 inconclusive. VERIF_SEED seeds every random choice. known_findings.json lists the genuine defects found (all repaired by fix: commits; none open). Supplementary screens that are not registered checks: `./check extra miri` (workload slices under the Miri interpreter), `./check extra valgrind` (C18/C19 scripts under memcheck) and `./check extra coverage` (line coverage of the repository's crates by the quick workloads, instrumented harness); seeded/ holds 240 independently written property-breaking changes and 33 property-preserving ones with what was run against them.",
+ "notes": "Runtime monitoring only: every check executes the real code and an oracle observes the executions. Exit 0 held on everything explored, 1 violation (VIOLATION property=<id> replay=<path>), 2 inconclusive. VERIF_SEED seeds every random choice. known_findings.json lists the genuine defects found (all repaired by fix: commits; none open). Supplementary screens that are not registered checks: `./check extra miri` (workload slices under the Miri interpreter), `./check extra valgrind` (C18/C19 scripts under memcheck) and `./check extra coverage` (line coverage of the repository's crates by the quick workloads, instrumented harness); seeded/ holds 279 independently written changes (276 property-breaking, 3 not adopted because their trigger lies outside the valid histories) and 33 property-preserving ones with what was run against them.",
  "not_applicable": [],
 }
 json.dump(m, open("/verif/MANIFEST.json", "w"), indent=1)
